@@ -77,6 +77,16 @@ def run_line(sx):
         clamp = cb.LineClamp(pos0, p1, p2)
     except ZeroDivisionError:
         return "degenerate"
+    # documented: "parameter t goes from 0 at point_1 to <d> at point_2 where <d> is the distance between the two points"
+    if sx.sym:
+        from symx.shims import norm_model
+        dist = norm_model(d)
+    else:
+        dist = float(np.linalg.norm(d))
+    b = clamp.bounds
+    sx.prove(len(b) == 1 and len(b[0]) == 2 and sx.all([sx.close(b[0][0], 0, 1e-12), sx.close(b[0][1], dist, 1e-9)]),
+             "LineClamp without explicit bounds: the parameter is bounded by 0 (point_1) and the distance to point_2",
+             "C17:line:default-bounds", info={"bounds": str(b)})
     t = sx.real("t", -5, 5)
     clamp.update_params([t])
     sx.reach("clamp")
